@@ -43,6 +43,9 @@ def run(ctx) -> None:
     ctx.rule("R3", "iter_matches enumerates all patterns x all lines, no early exit; overlap test is same-line interval overlap")
     ctx.rule("R4", "replacement rendered from the match's own pattern with the new version; placeholders expanded from the configured version pattern")
     ctx.rule("R5", "the config file's own current_version line is always a configured pattern (taken from a bumpver section only)")
+    ctx.rule("R7", "prerequisite: every pattern written in a setup.cfg reaches the rewrite - the INI reader hands on every non-blank line of a file_patterns value (C18/R5)")
+    from sa.report import run_prerequisite
+    run_prerequisite(ctx, "C18", ("R5",), "R7")
     ctx.rule("R6", "one file, one entry: file keys are canonical paths and equal keys are merged; merged lists are freshly built per file")
 
     for eng in ENGINES:
